@@ -13,7 +13,7 @@ META = {
         "quick": {"ints": "unbounded (symbolic)", "strings": "length <= 2", "lists": "length <= 2 (assoc: <= 1)", "sets": "size <= 2",
                   "nested": "absent / complete instance / partial instance (per operand, by partition); inheritance chain Inner < InnerSub",
                   "operands": "2 (merge2/atoms2/sets2/subclass_chain), 3 (assoc), allow_overwrite symbolic"},
-        "thorough": {"lists": "length <= 3 in merge2", "assoc": "all 27 nested-kind combinations incl. subclass kinds"},
+        "thorough": {"assoc": "all 27 nested-kind combinations with all three field groups free at once"},
     },
     "outside": ["sibling (incomparable) nested model classes (excluded by the property)", "installed schemas' own field types beyond these shapes",
                 "harvester-produced partials", "Union-typed fields", "sets of nested models"],
